@@ -21,7 +21,9 @@ def gen(rng):
     else: c = rng.randint(lo, hi)
     kind = rng.choice(['raw', 'raw', 'value', 'binstr', 'hexstr', 'hexshort'])
     if kind == 'hexshort': c = rng.getrandbits(rng.randint(1, max(1, n - 2)))      # (a non-negative code of any length below the word)
-    return {'f': [s, n, nf], 'c': c, 'o': rng.choice(OMODES), 'r': rng.choice(RMODES), 'kind': kind, 'route': rng.choice(['ctor', 'call', 'set_val', 'widened'])}
+    return {'f': [s, n, nf], 'c': c, 'o': rng.choice(OMODES), 'r': rng.choice(RMODES), 'kind': kind, 'route': rng.choice(['ctor', 'call', 'set_val', 'widened', 'copy_resized'])}
+
+def rng_pick(c, opts): return opts[(abs(int(c['c'])) + c['f'][1]) % len(opts)]
 
 def run_cases(cases, res):
     fx = lib.impl(); import numpy as np
@@ -46,6 +48,11 @@ def run_cases(cases, res):
                 x0.set_val(val, raw=raw, index=0)
                 xw = x0
                 x = x0[0]
+            elif c['route'] == 'copy_resized':
+                # a (shallow) copy() of the wide object was taken and RESIZED to a narrow word before the write: the wide object itself is
+                # written as before (its own format decides how it stores)
+                x = fx.Fxp(0, s, n, nf, **kw); b_ = x.copy(); b_.resize(n_word=rng_pick(c, [8, 16, 40]))
+                x.set_val(val, raw=raw)
             elif c['route'] == 'ctor': x = fx.Fxp(val, s, n, nf, raw=raw, **kw)
             else:
                 x = fx.Fxp(None, s, n, nf, **kw)
@@ -73,7 +80,7 @@ def run_cases(cases, res):
             res.fail(c, 'C18: wide value is not stored bit-exactly / saturated / wrapped as C01 and C03 prescribe', expected=want, got=obs['code']); continue
         if obs['st'] != (so, su):
             res.fail(c, 'C18: overflow/underflow flags of a wide store are not exact', expected=(so, su), got=obs['st']); continue
-        if obs['extp'] is not True:
+        if obs['extp'] is not True and c['route'] != 'copy_resized':      # (copy() is shallow by its documentation: the status record - the indicator included - is shared with the resized copy)
             res.fail(c, 'C18: the extended-precision indicator is not set for n_word >= 64', expected=True, got=obs['extp']); continue
         if obs['bin'] != c11.py_bin(n, want) or obs['hex'] != '0x' + c11.py_hex(n, want):
             res.fail(c, 'C18: bin()/hex() of a wide word is not the exact image of the code', expected=(c11.py_bin(n, want), c11.py_hex(n, want)), got=(obs['bin'], obs['hex'])); continue
@@ -96,7 +103,7 @@ def gen_array(rng):
         # a sequence mixing integers of [2^63, 2^64) with negative ones, nothing beyond 64 bits (NumPy would promote such a list to float64)
         cs = [rng.choice([2 ** 63 + rng.getrandbits(40) * 2 + 1, 2 ** 64 - rng.randint(1, 9), 2 ** 63 + 1]) for _ in range(rng.randint(1, 2))] + [-rng.randint(1, 9) for _ in range(rng.randint(1, 2))]
     rng.shuffle(cs)
-    route = base['route'] if base['route'] != 'widened' else 'ctor'
+    route = base['route'] if base['route'] not in ('widened', 'copy_resized') else 'ctor'
     if rng.random() < 0.3: route = rng.choice(['slice', 'slice_step', 'mask'])      # (item assignment of the whole sequence)
     return {'f': base['f'], 'cs': cs, 'o': base['o'], 'r': base['r'], 'kind': rng.choice(['raw', 'value']), 'route': route, 'strarr': rng.choice([None, None, 'hex', 'bin'])}
 
